@@ -12,18 +12,8 @@ EU = "ExpressionUtility"
 
 
 def grammar(idx):
-    ci = idx.cls("LarkParser")
-    g = ci.class_assigns.get("GRAMMAR")
-    if not isinstance(g, ast.Constant):
-        raise AnalysisError("LarkParser.GRAMMAR is not a string literal")
-    init = ci.methods["__init__"]
-    ctor = None
-    for n in ast.walk(init.node):
-        if isinstance(n, ast.Call) and unparse(n.func) == "Lark":
-            ctor = {k.arg: ast.literal_eval(k.value) for k in n.keywords}
-    if ctor is None:
-        raise AnalysisError("LarkParser.__init__ does not build a Lark parser")
-    return g.value, ctor
+    from . import common as K
+    return K.lark_ctor(idx, "LarkParser")
 
 
 class MatchModel:
